@@ -275,6 +275,13 @@ Proof.
     destruct (phase_of (set_boot C a KDead) p); try apply g2_set_boot. destruct (Nat.eqb a a0); [|apply g2_set_boot].
     pose proof (g2_boot_next (set_boot C a KDead) p rest) as Y. destruct (boot_next (set_boot C a KDead) p rest). cbn [fst] in *.
     eapply R_trans; [apply g2_set_boot | exact Y].
+  - (* EResend *)
+    destruct (c_clients C) as [cl|] eqn:Ec; [|apply R_refl].
+    destruct (nth_error (c_direct C) d) as [[i h0]|]; [|apply R_refl].
+    match goal with |- R C (fst (match make_req C i ?rid expect mint ?ow with _ => _ end)) =>
+      pose proof (g2_make_req C i rid expect mint ow) as H3; destruct (make_req C i rid expect mint ow) as [[C3 r] o3] end.
+    cbn [fst] in H3.
+    destruct r; cbn [fst]; [exact H3 | |]; (eapply R_trans; [exact H3|]; apply R_frame3; [score | reflexivity | reflexivity | reflexivity | reflexivity]).
 Qed.
 
 End Generic2.
